@@ -53,7 +53,7 @@ def cmp_probs(chk, key, got, want, detail):
 def replay_plain(chk, e, n):
     nv, nh, B = e["nv"], e["nh"], e["B"]
     pt = dict(nv=nv, nh=nh, B=B, am=e["am"], ph=e["ph"])
-    rbm = BinaryRBM(nv, nh, gpu=False)
+    rbm = lattice.pooled_rbm(nv, nh)
     lattice.set_net(rbm, e["am"], B)
     sp = lattice.space(nv)
     hs = torch.tensor(lattice.rows(nh), dtype=torch.double)
@@ -239,7 +239,8 @@ def record_trace(rng):
                 out = rbm.gibbs_steps(k, init, overwrite=ow)
             ev.append(dict(e="Begin", v0=v0, k=k, ow=ow))
             ev += [dict(e="Draw", probs=d["probs"], bits=d["bits"]) for d in rec.ev]
-            ev.append(dict(e="End", ret=bitrows(out), bufAfter=bitrows(init), same=out is init))
+            shares = out is init or (out.numel() > 0 and out.untyped_storage().data_ptr() == init.untyped_storage().data_ptr())
+            ev.append(dict(e="End", ret=bitrows(out), bufAfter=bitrows(init), same=bool(shares)))
             for d in rec.ev:
                 if any(x not in (0.0, 1.0) for row in d["raw"] for x in row):
                     ev[-1]["nonbinary"] = True
